@@ -92,10 +92,13 @@ Definition retry_op (o : op) : bool :=
   end.
 Definition read_op (o : op) : bool :=
   match o with Read _ _ | IoRead _ _ => true | _ => false end.
-(* the state the failed call left satisfies the invariant again (its fault is behind it) and the
-   same call, repeated, returns what the call returns when no fault is scheduled *)
+(* the state the failed call left satisfies the invariant again (its fault is behind it), with the
+   same medium and the same tables: the same call, repeated, is a call without faults on the same
+   file system, so every theorem about fault-free calls applies to it (PrFaultDef7 spells out
+   "returns what the call returns when no fault is scheduled" for the lookups) *)
 Definition retry_ok (fsz vid : N) (o : op) (s s' : st) : Prop :=
-  fs_inv fsz vid s' /\ fst (step o s') = fst (step o (nf s)).
+  fs_inv fsz vid s' /\ s_disk s' = s_disk s /\ s_vols s' = s_vols s /\ s_dirs s' = s_dirs s /\
+  s_files s' = s_files s.
 (* a failed Read may have consumed whole blocks before the fault (the offset advanced, the bytes
    were not delivered): the state is sound, the medium and every file record except the read
    cursor of that file are as before, the new offset lies between the old one and the end of file *)
